@@ -649,6 +649,10 @@ func grpcErrorFromTrailer(bufferPool *bufferPool, protobuf Codec, trailer http.H
 	if err != nil {
 		return errorf(CodeInternal, "gRPC protocol error: invalid error code %q", codeHeader)
 	}
+	if code == 0 {
+		// A non-canonical spelling of the OK status, for example "00".
+		return nil
+	}
 	message := grpcPercentDecode(bufferPool, trailer.Get(grpcHeaderMessage))
 	retErr := NewError(Code(code), errors.New(message))
 
@@ -665,8 +669,11 @@ func grpcErrorFromTrailer(bufferPool *bufferPool, protobuf Codec, trailer http.H
 		for _, d := range status.Details {
 			retErr.details = append(retErr.details, d)
 		}
-		// Prefer the Protobuf-encoded data to the headers (grpc-go does this too).
-		retErr.code = Code(status.Code)
+		// Prefer the Protobuf-encoded data to the headers (grpc-go does this too),
+		// but never replace an error's code with the OK status.
+		if status.Code != 0 {
+			retErr.code = Code(status.Code)
+		}
 		retErr.err = errors.New(status.Message)
 	}
 
